@@ -143,7 +143,7 @@ theorem rank_lt (wf : H.WF) (anti : H.Antisym) (av : List Ty) (hs : allCls av) (
     · rw [h]; rfl
 
 /-- on plain classes the batches are a permutation of the nodes -/
-theorem sort_perm (wf : H.WF) (anti : H.Antisym) (av : List Ty) (hs : allCls av) (nd : av.Nodup) :
+theorem sortTypes_perm (wf : H.WF) (anti : H.Antisym) (av : List Ty) (hs : allCls av) (nd : av.Nodup) :
     (batches (predFn (allDeps H av)) av.length av []).flatten.Perm av := by
   refine batches_perm _ av nd ?_ (rankOf H av) ?_
   · intro v _ u hu
@@ -161,12 +161,12 @@ theorem sort_perm (wf : H.WF) (anti : H.Antisym) (av : List Ty) (hs : allCls av)
 /-! ### unfolding `levels` -/
 
 /-- the applicable registered types -/
-def applicable (cls : Ty) (avail : List Ty) : List Ty := avail.filter (fun t => subclasscheck H cls t)
+def applicableTys (cls : Ty) (avail : List Ty) : List Ty := avail.filter (fun t => subclasscheck H cls t)
 
 /-- the batches computed by `sortTypes` -/
 def batchesOf (cls : Ty) (avail : List Ty) : List (List Ty) :=
-  batches (predFn (allDeps H (applicable H cls avail))) (applicable H cls avail).length
-    (applicable H cls avail) []
+  batches (predFn (allDeps H (applicableTys H cls avail))) (applicableTys H cls avail).length
+    (applicableTys H cls avail) []
 
 /-- numbering of the batches -/
 def lvOf (bs : List (List Ty)) (n k : Nat) : List (Ty × Nat) :=
@@ -208,19 +208,19 @@ theorem lvOf_batchIdx (n : Nat) (t : Ty) (l : Nat) : ∀ (bs : List (List Ty)) (
       · simp only [batchIdx]; rw [if_neg hnb]; exact hi
       · simp only [List.length_cons]; omega
 
-theorem applicable_cls (c : Nat) (avail : List Ty) (hs : allCls avail) :
-    allCls (applicable H (.cls c) avail) := by
+theorem applicableTys_cls (c : Nat) (avail : List Ty) (hs : allCls avail) :
+    allCls (applicableTys H (.cls c) avail) := by
   intro t ht
   exact hs t (List.mem_filter.mp ht).1
 
-theorem applicable_nodup (c : Nat) (avail : List Ty) (nd : avail.Nodup) :
-    (applicable H (.cls c) avail).Nodup :=
+theorem applicableTys_nodup (c : Nat) (avail : List Ty) (nd : avail.Nodup) :
+    (applicableTys H (.cls c) avail).Nodup :=
   List.Nodup.sublist List.filter_sublist nd
 
 theorem batchesOf_perm (wf : H.WF) (anti : H.Antisym) (c : Nat) (avail : List Ty)
     (hs : allCls avail) (nd : avail.Nodup) :
-    (batchesOf H (.cls c) avail).flatten.Perm (applicable H (.cls c) avail) :=
-  sort_perm H wf anti _ (applicable_cls H c avail hs) (applicable_nodup H c avail nd)
+    (batchesOf H (.cls c) avail).flatten.Perm (applicableTys H (.cls c) avail) :=
+  sortTypes_perm H wf anti _ (applicableTys_cls H c avail hs) (applicableTys_nodup H c avail nd)
 
 theorem sortTypes_eq (wf : H.WF) (anti : H.Antisym) (c : Nat) (avail : List Ty)
     (hs : allCls avail) (nd : avail.Nodup) :
@@ -257,7 +257,7 @@ theorem levels_mem (wf : H.WF) (anti : H.Antisym) (c : Nat) (avail : List Ty)
   have hfst := lvOf_fst (batchesOf H (.cls c) avail).length (batchesOf H (.cls c) avail) 0
   refine ⟨?_, ?_⟩
   · rw [hfst]
-    exact hp.nodup_iff.mpr (applicable_nodup H c avail nd)
+    exact hp.nodup_iff.mpr (applicableTys_nodup H c avail nd)
   · intro d
     have h1 : (∃ l, (Ty.cls d, l) ∈ lvOf (batchesOf H (.cls c) avail) (batchesOf H (.cls c) avail).length 0) ↔
         Ty.cls d ∈ (batchesOf H (.cls c) avail).flatten := by
@@ -269,7 +269,7 @@ theorem levels_mem (wf : H.WF) (anti : H.Antisym) (c : Nat) (avail : List Ty)
         subst e
         exact ⟨l, hl⟩
     rw [h1, hp.mem_iff]
-    unfold applicable
+    unfold applicableTys
     rw [List.mem_filter, C13_cls H wf]
 
 /-- strict monotonicity: a strict subclass sits at a strictly higher level -/
@@ -282,15 +282,15 @@ theorem levels_mono (wf : H.WF) (anti : H.Antisym) (c : Nat) (avail : List Ty)
   cases h
   have hp := batchesOf_perm H wf anti c avail hs nd
   have ndf : (batchesOf H (.cls c) avail).flatten.Nodup :=
-    hp.nodup_iff.mpr (applicable_nodup H c avail nd)
+    hp.nodup_iff.mpr (applicableTys_nodup H c avail nd)
   obtain ⟨ix, hix, hixlt, rfl⟩ := lvOf_batchIdx _ _ _ _ 0 ndf hx
   obtain ⟨iy, hiy, hiylt, rfl⟩ := lvOf_batchIdx _ _ _ _ 0 ndf hy
-  have hxa : Ty.cls x ∈ applicable H (.cls c) avail := by
+  have hxa : Ty.cls x ∈ applicableTys H (.cls c) avail := by
     rw [← hp.mem_iff, ← batchIdx_isSome _ _ 0, hix]; rfl
-  have hya : Ty.cls y ∈ applicable H (.cls c) avail := by
+  have hya : Ty.cls y ∈ applicableTys H (.cls c) avail := by
     rw [← hp.mem_iff, ← batchIdx_isSome _ _ 0, hiy]; rfl
   have hlt : typeorder H (.cls x) (.cls y) = .less := (cls_less_iff H anti x y).mpr ⟨hne, hsub⟩
-  have hpred : Ty.cls x ∈ predFn (allDeps H (applicable H (.cls c) avail)) (.cls y) :=
+  have hpred : Ty.cls x ∈ predFn (allDeps H (applicableTys H (.cls c) avail)) (.cls y) :=
     pred_complete H _ _ _ hxa hya (by intro e; cases e; exact hne rfl) hlt
       ((cls_more_iff H x y).mpr hlt)
   obtain ⟨ju, hju, hjlt⟩ := pred_earlier _ _ _ _ _ iy hpred hiy
@@ -308,7 +308,7 @@ theorem levels_fun (wf : H.WF) (anti : H.Antisym) (c : Nat) (avail : List Ty)
   cases h
   have hp := batchesOf_perm H wf anti c avail hs nd
   have ndf : (batchesOf H (.cls c) avail).flatten.Nodup :=
-    hp.nodup_iff.mpr (applicable_nodup H c avail nd)
+    hp.nodup_iff.mpr (applicableTys_nodup H c avail nd)
   obtain ⟨i, hi, _, rfl⟩ := lvOf_batchIdx _ _ _ _ 0 ndf h1
   obtain ⟨i', hi', _, rfl⟩ := lvOf_batchIdx _ _ _ _ 0 ndf h2
   rw [hi] at hi'
